@@ -281,8 +281,28 @@ def _sweep():
                     yield dict(spec=S.mk_spec([c], input=b"AT+N=" + txt + b"\n", shared=False, bufsz=96, ubufsz=8), meta=dict(pos=0, cls="sweep", txt=txt))
 
 
+def _huge():
+    """argument texts of 65 535 - 65 540 and 131 073 characters in working buffers beyond 64 KiB ('however many digits it has'):
+    zero-padded in-range values must be stored, long digit strings refused, whatever width an internal length counter has"""
+    for t in (INT, UINT, HEX):
+        for n in (65533, 65534, 65535, 65536, 131072):
+            pre = b"0x" if t == HEX else b""
+            texts = [pre + b"0" * n + b"5", pre + b"0" * n + b"7F" if t == HEX else pre + b"0" * n + b"127", pre + b"9" * (n + 1), pre + b"1" + b"0" * n]
+            if t == INT:
+                texts += [b"-" + b"0" * n + b"123", b"-" + b"9" * n]
+            for txt in texts:
+                for shared in (False, True):
+                    cc = len(txt) + 7 + 64
+                    c = S.mk_cmd(b"+N", "w", [S.mk_var(t, 1, RW, b"\x5a", wcb=1), S.mk_var(t, 2, RW, b"\x5a\x5a", wcb=1)])
+                    for pos in (0, 1):
+                        args = txt + b",1" if pos == 0 else b"1," + txt
+                        yield dict(spec=S.mk_spec([c], input=b"AT+N=" + args + b"\n", shared=shared, bufsz=2 * cc if shared else cc, ubufsz=8),
+                                   meta=dict(pos=pos, cls="huge", txt=txt))
+
+
 def enumerations(tier):
     yield "boundary-neighbourhoods", _sweep()
+    yield "beyond-64KiB", _huge()
 
 
 def minimise(case, W, sig):
